@@ -50,13 +50,27 @@ def _desc(draw):
     if ind.startswith('float') and outd.startswith('float'):
         frac = draw(st.booleans())
     unsigned = ind.startswith('u') or outd.startswith('u')
-    lo = 0 if unsigned else -(2**20)
+    lo = 0 if unsigned else -(2**16)
+    special = draw(st.sampled_from(['none'] * 6 + ['fracint', 'big64to32']))
+    if special == 'fracint' and kind == 'array':
+        # fractional float input accumulated into an integer output: numpy.cumsum(arr) cast to the output type (truncation)
+        ind = draw(st.sampled_from(['float32', 'float64']))
+        outd = draw(st.sampled_from(['int32', 'int64', 'uint32', 'uint64']))
+        vals = [q * 0.25 for q in draw(st.lists(st.integers(0, 400), min_size=n, max_size=n))]
+        offset = draw(st.integers(0, 1000))
+        delta = 0
+        return dict(n=n, initial=initial, final=final, kind=kind, ind=ind, outd=outd, frac=False, vals=vals, offset=offset, delta=delta, special='fracint')
+    if special == 'big64to32' and kind == 'array':
+        # float64 input whose partial sums exceed 2^24 into a float32 output: each partial sum is rounded once (numpy.cumsum then cast)
+        ind, outd = 'float64', 'float32'
+        vals = draw(st.lists(st.sampled_from([2.0**24, 2.0**25, 1.0, 3.0, 5.0, 2.0**26 + 4.0]), min_size=n, max_size=n))
+        return dict(n=n, initial=initial, final=final, kind=kind, ind=ind, outd=outd, frac=False, vals=vals, offset=0, delta=0, special='big64to32')
     if frac:
         vals = draw(st.lists(st.floats(-1000, 1000, allow_nan=False, width=32), min_size=n, max_size=n))
         offset = draw(st.one_of(st.just(0), st.floats(-100, 100, allow_nan=False, width=32)))
     else:
-        vals = draw(st.lists(st.one_of(st.integers(lo, 2**20), st.sampled_from([0, 1])), min_size=n, max_size=n))
-        offset = draw(st.one_of(st.just(0), st.integers(0 if unsigned else -1000, 10**6)))
+        vals = draw(st.lists(st.one_of(st.integers(lo, 2**16), st.sampled_from([0, 1])), min_size=n, max_size=n))  # |partial sums| < 2^24: exact in every dtype incl. float32
+        offset = draw(st.one_of(st.just(0), st.integers(0 if unsigned else -1000, 10**5)))
         if outd.startswith('float') and draw(st.booleans()):
             offset = float(offset)
     delta = draw(st.sampled_from([0, 0, 0, 0, 0, 0, 1, -1, 2, -2, 3, -3]))
@@ -80,6 +94,8 @@ def classes(d):
         c.append('mixed-dtype')
     if d['frac']:
         c.append('fractional')
+    if d.get('special'):
+        c.append('special=' + d['special'])
     return c
 
 
@@ -140,6 +156,15 @@ def run_case(d):
         tol = 4 * max(n, 1) * float(np.finfo(outd).eps) * scale
         P = [float(x) for x in part]
         off = float(offset)
+    elif d.get('special') in ('fracint', 'big64to32'):
+        tol = 0
+        off = int(offset)
+        a64 = np.array(vals, dtype=ind).astype(np.float64)  # multiples of 0.25 / integers: every partial sum is exact in float64
+        part = off + np.cumsum(a64)
+        if outd.kind == 'f':
+            P = [float(outd.type(x)) for x in part]   # one rounding to the output type
+        else:
+            P = [int(x) for x in part]                # truncation, as numpy's cast does
     else:
         tol = 0
         off = int(offset)
@@ -159,6 +184,8 @@ def run_case(d):
     for i, (g, e) in enumerate(zip(got, exp)):
         if not (abs(float(g) - float(e)) <= tol):
             raise Violation('cumsum-%s-wrong-output' % tag, 'n=%d flags=(%s,%s) %s->%s out[%d]=%r expected %r' % (n, initial, final, ind, outd, i, g, e))
+    if d.get('special') in ('fracint', 'big64to32') and n >= 1:
+        exp_total = float(off + np.sum(np.array(vals, dtype=ind).astype(np.float64)))  # the grand total itself is not cast to the output type
     if not (abs(float(total) - float(exp_total)) <= tol):
         raise Violation('cumsum-%s-wrong-total' % tag, 'n=%d flags=(%s,%s) %s->%s returned %r expected %r' % (n, initial, final, ind, outd, total, exp_total))
     return None
